@@ -4,6 +4,7 @@ from __future__ import annotations
 
 import itertools
 import math
+from fractions import Fraction as F
 
 from rv.core import ctx as _ctx
 from rv.core import calling, instrument
@@ -313,6 +314,73 @@ def judge_lattice(ctx, s1, s2, lat, tb, fb):
             ctx.violate("areal_iou", "areal_iou", observed=[v12, v21], expected=want, spec=spec)
             break
 
+
+# ------------------------------------------------------------------ polygon x box, exact by clipping
+def _clip_area(ring, x0, y0, x1, y1):
+    """Area of (simple polygon ring) intersected with the rectangle, in exact rational arithmetic
+    (Sutherland-Hodgman against the four half-planes; zero-width bridges it may leave do not change the shoelace sum)."""
+    pts = [(F(p[0]), F(p[1])) for p in (ring[:-1] if ring[0] == ring[-1] else ring)]
+    for axis, bound, keep_ge in ((0, F(x0), True), (0, F(x1), False), (1, F(y0), True), (1, F(y1), False)):
+        out = []
+        for a, b in zip(pts, pts[1:] + pts[:1]):
+            ina = a[axis] >= bound if keep_ge else a[axis] <= bound
+            inb = b[axis] >= bound if keep_ge else b[axis] <= bound
+            if ina != inb:
+                t = (bound - a[axis]) / (b[axis] - a[axis])
+                cross = (a[0] + t * (b[0] - a[0]), a[1] + t * (b[1] - a[1]))
+            if ina and inb:
+                out.append(b)
+            elif ina and not inb:
+                out.append(cross)
+            elif not ina and inb:
+                out.append(cross); out.append(b)
+        pts = out
+        if not pts:
+            return F(0)
+    return abs(sum(a[0] * b[1] - b[0] * a[1] for a, b in zip(pts, pts[1:] + pts[:1]))) / 2
+
+
+def _ring_area(ring):
+    pts = [(F(p[0]), F(p[1])) for p in (ring[:-1] if ring[0] == ring[-1] else ring)]
+    return abs(sum(a[0] * b[1] - b[0] * a[1] for a, b in zip(pts, pts[1:] + pts[:1]))) / 2
+
+
+def lattice_star(rng, t0, dt, f0, df):
+    """A simple (usually non-convex) polygon with 5-9 vertices on lattice points, by angle around an interior point."""
+    N = LAT_N
+    cx, cy = rng.uniform(2.5, N - 2.5), rng.uniform(2.5, N - 2.5)
+    k = rng.randint(5, 9)
+    pts = set()
+    while len(pts) < k:
+        pts.add((rng.randint(0, N), rng.randint(0, N)))
+    pts = sorted(pts, key=lambda p: math.atan2(p[1] - cy, p[0] - cx))
+    ring = [[t0 + i * dt, f0 + j * df] for i, j in pts]
+    return {"type": "Polygon", "coordinates": [ring + [ring[0]]]}
+
+
+def judge_polygon_box(ctx, sp, sb, tb, fb):
+    from soundevent.evaluation import affinity as A
+
+    spec = {"kind": "polygon_box", "g1": sp, "g2": sb, "tb": tb, "fb": fb}
+    ring = sp["coordinates"][0]
+    x0, y0, x1, y1 = sb["coordinates"]
+    inter = _clip_area(ring, x0, y0, x1, y1)
+    union = _ring_area(ring) + F(x1 - x0) * F(y1 - y0) - inter
+    want = 0.0 if union == 0 else float(inter / union)
+    try:
+        gp, gb = geoms.build(sp), geoms.build(sb)
+        if not geoms.is_shapely_valid(gp):
+            ctx.ood("polygon_box:not_simple")
+            return
+        v12 = A.compute_affinity(gp, gb, time_buffer=tb, freq_buffer=fb)
+        v21 = A.compute_affinity(gb, gp, time_buffer=tb, freq_buffer=fb)
+    except Exception as e:
+        ctx.violate_exc("raises", f"raises:{type(e).__name__}", e, spec=spec)
+        return
+    ctx.mon("affinity.polygon_box_exact")
+    if abs(v12 - want) > REAL_TOL or abs(v21 - want) > REAL_TOL:
+        ctx.violate("areal_iou", "areal_iou:polygon_box", observed=[v12, v21], expected=want, spec=spec)
+
 PLACEMENTS = ["identical", "nested", "partial", "touching", "time_disjoint", "far"]
 BUFFERS = {"small": (1e-3, 10.0), "default": (0.01, 100.0), "large": (1.0, 5000.0), "huge": (4.0, 20000.0), "zero": (0.0, 0.0)}
 
@@ -412,6 +480,25 @@ def run(ctx):
         tb, fb = rng.choice([(0.01, 100.0), (0.0, 0.0), (1.0, 5000.0)])
         ctx.case((s1["type"], s2["type"], "lattice", "areal"), {"kind": "lattice", "g1": s1, "g2": s2, "lat": list(lat), "tb": tb, "fb": fb}, nontrivial=(s1 != s2))
         judge_lattice(ctx, s1, s2, lat, tb, fb)
+    # a simple polygon against a box that shares corners / edges with it (its own bounds, or a lattice box through one
+    # of its vertices): the value is known exactly from rational clipping
+    for _ in range(ctx.scale(2500, 12000)):
+        lat = (rng.choice([0.0, 0.25, 12.25]), rng.choice([0.25, 0.5, 0.125]), rng.choice([0.0, 100.0, 20480.0]), rng.choice([100.0, 250.0, 1024.0]))
+        sp = lattice_star(rng, *lat)
+        ring = sp["coordinates"][0]
+        b = geoms.ref_bounds(sp)
+        how = rng.choice(["bounds", "bounds", "through_vertex", "lattice"])
+        if how == "bounds":
+            box = [b[0], b[1], b[2], b[3]]
+        else:
+            vx, vy = rng.choice(ring) if how == "through_vertex" else (lat[0] + rng.randint(0, LAT_N) * lat[1], lat[2] + rng.randint(0, LAT_N) * lat[3])
+            ox, oy = lat[0] + rng.randint(0, LAT_N) * lat[1], lat[2] + rng.randint(0, LAT_N) * lat[3]
+            box = [min(vx, ox), min(vy, oy), max(vx, ox), max(vy, oy)]
+        if not (box[2] > box[0] and box[3] > box[1]):
+            continue
+        sb = {"type": "BoundingBox", "coordinates": box}
+        ctx.case(("Polygon", "BoundingBox", "lattice", how), {"kind": "polygon_box", "g1": sp, "g2": sb, "tb": 0.01, "fb": 100.0})
+        judge_polygon_box(ctx, sp, sb, 0.01, 100.0)
     FULL = False
 
 
@@ -421,7 +508,9 @@ def replay(ctx, w):
     FULL = True
     s = w["spec"]
     ctx.case("replay", s)
-    if s.get("kind") == "lattice":
+    if s.get("kind") == "polygon_box":
+        judge_polygon_box(ctx, s["g1"], s["g2"], s["tb"], s["fb"])
+    elif s.get("kind") == "lattice":
         judge_lattice(ctx, s["g1"], s["g2"], tuple(s["lat"]), s["tb"], s["fb"])
     else:
         judge(ctx, s["g1"], s["g2"], s["tb"], s["fb"])
